@@ -116,6 +116,52 @@ pub fn load_findings() -> Vec<FindingLine> {
     out
 }
 
+// ---------------------------------------------------------------------------------------------------------------
+// A subject that never gives control back. Code under test that spins inside one task poll (a loop that is always
+// ready) cannot be interrupted from inside its thread, and virtual time cannot advance past it: no horizon ever
+// fires. Engines that run the subject in-process announce every case (`case_begin` / `case_end`); a watchdog
+// thread turns a case that has been running for far longer than any case legitimately does (milliseconds; the cap
+// is minutes) into a violation with that case as its replay and ends the run with a verdict instead of a hang.
+// ---------------------------------------------------------------------------------------------------------------
+type Describe = Box<dyn Fn() -> String + Send>;
+static RUNNING_CASES: Mutex<Vec<(std::thread::ThreadId, Instant, Describe)>> = Mutex::new(Vec::new());
+static CURRENT_REPORT: std::sync::OnceLock<(&'static str, Tier, &'static str)> = std::sync::OnceLock::new();
+
+/// the calling thread starts running the subject on the case described by `what()` (evaluated only if needed later)
+pub fn case_begin(what: Describe) {
+    let id = std::thread::current().id();
+    let mut r = RUNNING_CASES.lock().unwrap_or_else(|p| p.into_inner());
+    r.retain(|(t, _, _)| *t != id);
+    r.push((id, Instant::now(), what));
+}
+
+pub fn case_end() {
+    let id = std::thread::current().id();
+    RUNNING_CASES.lock().unwrap_or_else(|p| p.into_inner()).retain(|(t, _, _)| *t != id);
+}
+
+fn start_spin_watchdog() {
+    static STARTED: std::sync::Once = std::sync::Once::new();
+    STARTED.call_once(|| {
+        let cap = std::time::Duration::from_secs(std::env::var("VERIF_CASE_CAP_S").ok().and_then(|v| v.parse().ok()).unwrap_or(150));
+        std::thread::spawn(move || loop {
+            std::thread::sleep(std::time::Duration::from_millis(500));
+            let stuck = RUNNING_CASES.lock().unwrap_or_else(|p| p.into_inner()).iter().find(|(_, t0, _)| t0.elapsed() > cap).map(|(_, t0, w)| (t0.elapsed(), w()));
+            if let (Some((age, what)), Some((property, tier, level))) = (stuck, CURRENT_REPORT.get().copied()) {
+                let rep = Report::unwatched(property, tier, level);
+                rep.violation(Violation {
+                    key: "handler-never-gives-control-back".into(),
+                    text: format!("one case has kept its thread busy for {age:?} of real time (a case takes milliseconds): the handler spins without ever yielding - it cannot be timed out, notices no end of stream, and holds a worker for good; case: {}", what.chars().take(1500).collect::<String>()),
+                    replay: json!({"spinning_case": what}),
+                    weight: 0,
+                });
+                rep.assume("this run was cut short by the watchdog for cases that never return; coverage figures are absent");
+                rep.finish();
+            }
+        });
+    });
+}
+
 /// Collects the results of one check run and turns them into the interface's output.
 pub struct Report {
     pub property: &'static str,
@@ -131,6 +177,12 @@ pub struct Report {
 
 impl Report {
     pub fn new(property: &'static str, tier: Tier, level: &'static str) -> Self {
+        let _ = CURRENT_REPORT.set((property, tier, level));
+        start_spin_watchdog();
+        Self::unwatched(property, tier, level)
+    }
+
+    fn unwatched(property: &'static str, tier: Tier, level: &'static str) -> Self {
         Self {
             property,
             tier,
